@@ -29,20 +29,21 @@ import Pygom.Build
 namespace Pygom
 namespace Canary
 
-/-- the evaluators registered with `add_func` (5 in DeterministicOde.__init__, 6 more in SimulateOde.__init__) -/
+/-- the evaluators registered with `add_func` (6 in DeterministicOde.__init__ - `grad_grad` since the repair of finding
+C20-hessian-mixed-terms -, 6 more in SimulateOde.__init__) -/
 inductive Ev
-  | ode | jacobian | diffJacobian | grad | gradJacobian
+  | ode | jacobian | diffJacobian | grad | gradJacobian | gradGrad
   | transitionJacobian | pureOdeVector | vMat | eventRateVector | transitionMean | transitionVar
 deriving DecidableEq, Repr, Inhabited
 
 def Ev.all : List Ev :=
-  [.ode, .jacobian, .diffJacobian, .grad, .gradJacobian,
+  [.ode, .jacobian, .diffJacobian, .grad, .gradJacobian, .gradGrad,
    .transitionJacobian, .pureOdeVector, .vMat, .eventRateVector, .transitionMean, .transitionVar]
 
 /-- the `method_name` given to `add_func` -/
 def Ev.name : Ev → String
   | .ode => "ode" | .jacobian => "jacobian" | .diffJacobian => "diff_jacobian" | .grad => "grad"
-  | .gradJacobian => "grad_jacobian" | .transitionJacobian => "transitionJacobian"
+  | .gradJacobian => "grad_jacobian" | .gradGrad => "grad_grad" | .transitionJacobian => "transitionJacobian"
   | .pureOdeVector => "pureOdeVector" | .vMat => "vMat" | .eventRateVector => "eventRateVector"
   | .transitionMean => "transitionMean" | .transitionVar => "transitionVar"
 
@@ -50,7 +51,7 @@ def Ev.ofName? (s : String) : Option Ev := Ev.all.find? (fun e => e.name == s)
 
 /-- evaluators of `DeterministicOde` -/
 def Ev.isDet : Ev → Bool
-  | .ode | .jacobian | .diffJacobian | .grad | .gradJacobian => true
+  | .ode | .jacobian | .diffJacobian | .grad | .gradJacobian | .gradGrad => true
   | _ => false
 
 /-- which source-level mutator an operation goes through -/
@@ -204,7 +205,7 @@ def allEv : Ev → Bool := fun _ => true
 def noEv : Ev → Bool := fun _ => false
 def odeMaster : Ev → Bool := fun e => e = .ode
 
-/-- PATCHED tree (`SimulateOde`; `simulate.HasNewTransition.states` lists all eleven evaluators) -/
+/-- PATCHED tree (`SimulateOde`; `simulate.HasNewTransition.states` lists all twelve evaluators) -/
 def Cfg.simulate : Cfg :=
   { watched := allEv, master := odeMaster, trips := fun _ => true, declSetsSp := true }
 
